@@ -3,6 +3,7 @@ import IoraModel.Model.BqSkel
 import IoraModel.Lemmas.RingSpsc
 import IoraModel.Lemmas.BlockingQueue
 import IoraModel.Lemmas.BlockingQueueLogs
+import IoraModel.Lemmas.BlockingQueueBroadcast
 /-!
 # C10 — Bounded queues are FIFO, lossless, capacity-bounded and race-free
 
@@ -194,6 +195,36 @@ theorem Q4_refuted_for_unrepaired_close :
 theorem Q4_repaired (cap : Nat) (ps : List (List BQ.Call)) (sched : List Monitor.Choice) :
     ¬ BQ.LostWakeup true (Monitor.run (BQ.prog true) (BQ.init cap ps) sched) :=
   BQ.fixed_no_lost_wakeup cap ps sched
+
+/-! ## The broadcast discipline, generically (DESIGN §6.3: "proved once as a theorem") -/
+
+/-- **Generic no-lost-wake-up theorem for the broadcast discipline.**  For EVERY monitor program `P` over one mutex `m`
+that satisfies `Monitor.Broadcast P m` (waits only under `m` and in the step that found the predicate false; data changes
+only in steps of the holder; whoever turns a predicate true owes — and eventually performs — the `notifyAll`), from every
+state satisfying the invariant (e.g. any initial state, `Broadcast.inv_init`) and after EVERY schedule: if no thread can
+run, every sleeper's predicate is false. -/
+theorem broadcast_no_lost_wakeup {D L : Type} {P : Monitor.Prog D L} {m : Monitor.MutexId} (B : Monitor.Broadcast P m)
+    (s : Monitor.State D L) (h : B.Inv s) (sched : List Monitor.Choice)
+    (hd : Monitor.Deadlocked P (Monitor.run P s sched)) (t : Monitor.Tid) (cv : Monitor.CvId)
+    (ht : t < (Monitor.run P s sched).n) (ha : Monitor.isAsleepOn cv ((Monitor.run P s sched).thr t) = true) :
+    B.pred cv (Monitor.run P s sched).data = false :=
+  B.deadlocked_sleepers _ (B.inv_run s h sched) hd t cv ht ha
+
+/-- … and in every reachable state (dead-locked or not) every sleeper's predicate is false or some ready thread still
+owes the broadcast -/
+theorem broadcast_invariant {D L : Type} {P : Monitor.Prog D L} {m : Monitor.MutexId} (B : Monitor.Broadcast P m)
+    (s : Monitor.State D L) (h : B.Inv s) (sched : List Monitor.Choice) : B.Inv (Monitor.run P s sched) :=
+  B.inv_run s h sched
+
+/-- **The queue's `close()` is an instance** (non-vacuity of the generic theorem, and the F01-relevant half of Q3/Q4
+obtained from it): `BQ.closeBroadcast : Broadcast (BQ.prog true) BQ.M` with predicate `_closed`; hence, for every
+program set and every schedule, in a dead-locked state nobody sleeps on a closed queue. -/
+theorem Q3_close_is_broadcast_instance (cap : Nat) (ps : List (List BQ.Call)) (sched : List Monitor.Choice)
+    (hd : Monitor.Deadlocked (BQ.prog true) (Monitor.run (BQ.prog true) (BQ.init cap ps) sched)) (t : Monitor.Tid)
+    (cv : Monitor.CvId) (ht : t < (Monitor.run (BQ.prog true) (BQ.init cap ps) sched).n) (hcv : cv = BQ.NE ∨ cv = BQ.NF)
+    (ha : Monitor.isAsleepOn cv ((Monitor.run (BQ.prog true) (BQ.init cap ps) sched).thr t) = true) :
+    (Monitor.run (BQ.prog true) (BQ.init cap ps) sched).data.closed = false :=
+  BQ.close_deadlocked cap ps sched hd t cv ht hcv ha
 
 /-! ## Blocking queue: the source still has the lock/notify skeleton the model mirrors -/
 
